@@ -1,9 +1,10 @@
 /-
   compile_fragment_wf, part 4: `patchCode`.
 
-  * `threadJmp` (the jump-to-jump loop) returns either the distance it was started with or a distance that leads to a
-    bound label of a JMP of the unpatched code; it never takes the out-of-range branch when every label referenced by a
-    JMP is bound inside the code (`LG`).
+  * `threadJmp` (the jump-to-jump loop) returns either the distance it was started with or a distance within
+    ±opMaxArgSbx (both range checks of HEAD's patchCode are modelled) that leads to a bound label of a JMP of the
+    unpatched code, inside the code when every label referenced by a JMP is bound inside the code (`LG`); its only
+    error is "too long to jump.".
   * `patchLoop` index invariant (`PInv`): which instruction ends up at which index (`Fin`): a JMP becomes JMP distance /
     NOP, the FIRST MOVE of a maximal run of ≥ 2 MOVEs that is followed by another instruction becomes MOVEN with
     C = min(run - 1, 511), every other instruction (in particular every other MOVE of a run) is unchanged; the
@@ -14,6 +15,9 @@ import GLua.Proofs.CompileWfDefs
 namespace GLua.CompileWf
 open GLua.Compile GLua.MiniVM GLua.Lowering
 
+variable [NumStruct]
+set_option linter.unusedSectionVars false
+
 /-! ### the loop body, named -/
 
 def patchJmp (orig : List Instr) (lp : List (Nat × Int)) (pc : Nat) (code : List Instr) (inst : Instr) : Except String (List Instr) :=
@@ -21,7 +25,8 @@ def patchJmp (orig : List Instr) (lp : List (Nat × Int)) (pc : Nat) (code : Lis
   | .jmp sbx =>
     match threadJmp orig lp pc 5 inst 0 with
     | .error e => .error e
-    | .ok distance => .ok (if distance = 0 then setAt code pc (.nop sbx) else setAt code pc (.jmp distance))
+    | .ok distance => .ok (if distance = 0 ∧ afterTForLoop code pc = false then setAt code pc (.nop sbx)
+                            else setAt code pc (.jmp distance))
   | _ => .ok code
 
 def mergeMoven (code : List Instr) (pc moven : Nat) : List Instr :=
@@ -54,50 +59,85 @@ def LG (orig : List Instr) (lp : List (Nat × Int)) : Prop :=
 
 def InRange (orig : List Instr) (pc : Nat) (d : Int) : Prop := 0 ≤ (pc : Int) + d + 1 ∧ (pc : Int) + d + 1 < (orig.length : Int)
 
-theorem threadJmp_range (orig : List Instr) (lp : List (Nat × Int)) (pc : Nat) (hlg : LG orig lp) :
-    ∀ (fuel : Nat) (cur : Instr) (dist : Int), (∃ t : Nat, orig[t]? = some cur) →
-      (∀ res, threadJmp orig lp pc fuel cur dist = .ok res →
-        res = dist ∨ (InRange orig pc res ∧ res ≤ (Generated.opMaxArgSbx : Int))) ∧
-      (∀ e, threadJmp orig lp pc fuel cur dist = .error e → e = "too long to jump.") := by
+/-- every distance the loop produces itself (i.e. other than the one it was started with) passed both range checks:
+    it fits the sBx field.  No hypothesis on the labels. -/
+theorem threadJmp_fits (orig : List Instr) (lp : List (Nat × Int)) (pc : Nat) :
+    ∀ (fuel : Nat) (cur : Instr) (dist res : Int), threadJmp orig lp pc fuel cur dist = .ok res →
+      res = dist ∨ (-(Generated.opMaxArgSbx : Int) ≤ res ∧ res ≤ (Generated.opMaxArgSbx : Int)) := by
   intro fuel
   induction fuel with
-  | zero =>
-    intro cur dist _
-    exact ⟨fun res h => by simp [threadJmp] at h; exact Or.inl h.symm, fun e h => by simp [threadJmp] at h⟩
+  | zero => intro cur dist res h; simp [threadJmp] at h; exact Or.inl h.symm
   | succ n ih =>
-    intro cur dist ⟨t, ht⟩
+    intro cur dist res h
+    cases cur with
+    | jmp sbx =>
+      simp only [threadJmp] at h
+      split at h
+      · split at h
+        · cases h
+        · simp only [Except.ok.injEq] at h; exact Or.inl h.symm
+      · rename_i hr
+        have hfit : -(Generated.opMaxArgSbx : Int) ≤ lookupLabel lp sbx.toNat - (pc : Int) ∧
+            lookupLabel lp sbx.toNat - (pc : Int) ≤ (Generated.opMaxArgSbx : Int) := by omega
+        split at h
+        · simp only [Except.ok.injEq] at h; subst h; exact Or.inr hfit
+        · split at h
+          · simp only [Except.ok.injEq] at h; subst h; exact Or.inr hfit
+          · rcases ih _ _ _ h with hr' | hr'
+            · subst hr'; exact Or.inr hfit
+            · exact Or.inr hr'
+    | _ => simp [threadJmp] at h; exact Or.inl h.symm
+
+/-- the only error of the loop is the compile error -/
+theorem threadJmp_error (orig : List Instr) (lp : List (Nat × Int)) (pc : Nat) :
+    ∀ (fuel : Nat) (cur : Instr) (dist : Int) (e : String), threadJmp orig lp pc fuel cur dist = .error e →
+      e = "too long to jump." := by
+  intro fuel
+  induction fuel with
+  | zero => intro cur dist e h; simp [threadJmp] at h
+  | succ n ih =>
+    intro cur dist e h
+    cases cur with
+    | jmp sbx =>
+      simp only [threadJmp] at h
+      split at h
+      · split at h
+        · simp only [Except.error.injEq] at h; exact h.symm
+        · cases h
+      · split at h
+        · cases h
+        · split at h
+          · cases h
+          · exact ih _ _ _ h
+    | _ => simp [threadJmp] at h
+
+/-- with every label of a JMP bound inside the code, every distance the loop produces leads inside the code -/
+theorem threadJmp_range (orig : List Instr) (lp : List (Nat × Int)) (pc : Nat) (hlg : LG orig lp) :
+    ∀ (fuel : Nat) (cur : Instr) (dist : Int), (∃ t : Nat, orig[t]? = some cur) →
+      ∀ res, threadJmp orig lp pc fuel cur dist = .ok res → res = dist ∨ InRange orig pc res := by
+  intro fuel
+  induction fuel with
+  | zero => intro cur dist _ res h; simp [threadJmp] at h; exact Or.inl h.symm
+  | succ n ih =>
+    intro cur dist ⟨t, ht⟩ res h
     cases cur with
     | jmp sbx =>
       obtain ⟨hl1, hl2⟩ := hlg t sbx ht
-      have htgt : ((pc : Int) + (lookupLabel lp sbx.toNat - (pc : Int)) + 1) = lookupLabel lp sbx.toNat + 1 := by omega
-      have hnn : ¬ ((pc : Int) + (lookupLabel lp sbx.toNat - (pc : Int)) + 1 < 0) := by omega
-      have hlt : ((pc : Int) + (lookupLabel lp sbx.toNat - (pc : Int)) + 1).toNat < orig.length := by omega
-      obtain ⟨next, hnext⟩ : ∃ next, orig[((pc : Int) + (lookupLabel lp sbx.toNat - (pc : Int)) + 1).toNat]? = some next :=
-        ⟨orig[((pc : Int) + (lookupLabel lp sbx.toNat - (pc : Int)) + 1).toNat], by simp [hlt]⟩
-      obtain ⟨ih1, ih2⟩ := ih next (lookupLabel lp sbx.toNat - (pc : Int)) ⟨_, hnext⟩
-      constructor
-      · intro res h
-        simp only [threadJmp] at h
-        split at h
+      have hin : InRange orig pc (lookupLabel lp sbx.toNat - (pc : Int)) := ⟨by omega, by omega⟩
+      simp only [threadJmp] at h
+      split at h
+      · split at h
+        · cases h
+        · simp only [Except.ok.injEq] at h; exact Or.inl h.symm
+      · split at h
+        · simp only [Except.ok.injEq] at h; subst h; exact Or.inr hin
         · split at h
-          · cases h
-          · simp only [Except.ok.injEq] at h; exact Or.inl h.symm
-        · rename_i hmax
-          simp only [hnext] at h
-          right
-          rcases ih1 res h with hr | hr
-          · subst hr
-            exact ⟨⟨by omega, by omega⟩, by omega⟩
-          · exact hr
-      · intro e h
-        simp only [threadJmp] at h
-        split at h
-        · split at h
-          · simp only [Except.error.injEq] at h; exact h.symm
-          · cases h
-        · simp only [hnext] at h
-          exact ih2 e h
-    | _ => exact ⟨fun res h => by simp [threadJmp] at h; exact Or.inl h.symm, fun e h => by simp [threadJmp] at h⟩
+          · simp only [Except.ok.injEq] at h; subst h; exact Or.inr hin
+          · rename_i next hnext
+            rcases ih next _ ⟨_, hnext⟩ res h with hr | hr
+            · subst hr; exact Or.inr hin
+            · exact Or.inr hr
+    | _ => simp [threadJmp] at h; exact Or.inl h.symm
 
 /-! ### which instruction ends up where -/
 
@@ -105,7 +145,8 @@ def isMoveAt (orig : List Instr) (j : Nat) : Prop := ∃ a b, orig[j]? = some (.
 
 /-- relation between the unpatched instruction `i` at index `j` and the patched instruction `x` at the same index -/
 def FinI (orig : List Instr) (lp : List (Nat × Int)) (j : Nat) : Instr → Instr → Prop
-  | .jmp L, x => ∃ d, threadJmp orig lp j 5 (.jmp L) 0 = .ok d ∧ x = (if d = 0 then .nop L else .jmp d)
+  | .jmp L, x => ∃ d, threadJmp orig lp j 5 (.jmp L) 0 = .ok d ∧
+      x = (if d = 0 ∧ afterTForLoop orig j = false then .nop L else .jmp d)
   | .move a b, x => x = .move a b ∨
       (∃ c, x = .moven a b c ∧ 1 ≤ c ∧ c ≤ 511 ∧ (j = 0 ∨ ¬ isMoveAt orig (j - 1)) ∧
         (∀ k, 1 ≤ k → k ≤ c → isMoveAt orig (j + k)) ∧ j + c + 1 < orig.length)
@@ -280,6 +321,38 @@ theorem setAt_self {l : List Instr} {i : Nat} {x : Instr} (h : l[i]? = some x) :
     simp [hl, Option.some.inj h]
   · simp [List.getElem?_set_ne hj]
 
+/-- the TFORLOOP test of the JMP arm reads an instruction that is final or untouched: it sees the unpatched opcode -/
+def tfOf : Option Instr → Bool
+  | some (.abc op _ _ _) => op == Generated.OP_TFORLOOP
+  | _ => false
+
+theorem afterTForLoop_eq (code : List Instr) (pc : Nat) : afterTForLoop code pc = (decide (pc > 0) && tfOf code[pc - 1]?) := by
+  unfold afterTForLoop tfOf
+  cases code[pc - 1]? with
+  | none => rfl
+  | some i => cases i <;> rfl
+
+theorem finI_tf {orig : List Instr} {lp : List (Nat × Int)} {j : Nat} {i x : Instr} (h : FinI orig lp j i x) :
+    tfOf (some x) = tfOf (some i) := by
+  cases i <;> simp only [FinI] at h
+  case jmp L =>
+    obtain ⟨d, _, rfl⟩ := h
+    split <;> rfl
+  case move a b =>
+    rcases h with rfl | ⟨c, rfl, _⟩ <;> rfl
+  all_goals subst h; rfl
+
+theorem pinv_tfor {orig : List Instr} {lp : List (Nat × Int)} {m0 pc : Nat} {ps : PatchState} (h : PInv orig lp m0 pc ps) :
+    afterTForLoop ps.code pc = afterTForLoop orig pc := by
+  rw [afterTForLoop_eq, afterTForLoop_eq]
+  by_cases hpc : pc > 0
+  · congr 1
+    by_cases hs : pc - ps.moven ≤ pc - 1
+    · rw [h.same _ hs]
+    · obtain ⟨x, hx, i, hi, hf⟩ := h.done (pc - 1) (by omega)
+      rw [hx, hi]; exact finI_tf hf
+  · simp [hpc]
+
 theorem patchLoop_spec (orig : List Instr) (lp : List (Nat × Int)) (m0 : Nat) :
     ∀ (fuel pc : Nat) (ps ps' : PatchState), PInv orig lp m0 pc ps → orig.length ≤ pc + fuel →
       patchLoop orig lp fuel pc ps = .ok ps' →
@@ -317,9 +390,10 @@ theorem patchLoop_spec (orig : List Instr) (lp : List (Nat × Int)) (m0 : Nat) :
           | error e => simp [htj] at hp
           | ok d =>
             simp only [htj, Instr.isMove, Bool.false_eq_true, if_false] at hp
-            have hx : FinI orig lp pc (.jmp L) (if d = 0 then .nop L else .jmp d) := ⟨d, htj, rfl⟩
-            have hcode : (if d = 0 then setAt ps.code pc (.nop L) else setAt ps.code pc (.jmp d)) =
-                setAt ps.code pc (if d = 0 then .nop L else .jmp d) := by split <;> rfl
+            rw [pinv_tfor h] at hp
+            have hx : FinI orig lp pc (.jmp L) (if d = 0 ∧ afterTForLoop orig pc = false then .nop L else .jmp d) := ⟨d, htj, rfl⟩
+            have hcode : (if d = 0 ∧ afterTForLoop orig pc = false then setAt ps.code pc (.nop L) else setAt ps.code pc (.jmp d)) =
+                setAt ps.code pc (if d = 0 ∧ afterTForLoop orig pc = false then .nop L else .jmp d) := by split <;> rfl
             rw [hcode] at hp
             exact ih (pc + 1) _ ps' (pinv_step_other h hi hm' hx) (by omega) hp
         | move a b => simp [Instr.isMove] at hm
@@ -349,9 +423,9 @@ theorem patchCode_spec (st : CState) (code : List Instr) (nregs : Nat) (h : patc
       obtain ⟨h1, h2, h3⟩ := patchLoop_spec st.code st.labelPc 1 st.code.length 0 _ ps h0 (by omega) hl
       exact ⟨h1, by rw [h2]; rfl, by omega, h3⟩
 
-/-- patchCode never faults on its own indexing when the labels are bound inside the code: the only errors are the two
-    compile errors. -/
-theorem patchLoop_errors (orig : List Instr) (lp : List (Nat × Int)) (hlg : LG orig lp) :
+/-- patchCode's loop has one error only (the model's loop no longer has an index that could be out of range: like
+    HEAD's patchCode it stops threading at a target outside the code). -/
+theorem patchLoop_errors (orig : List Instr) (lp : List (Nat × Int)) :
     ∀ (fuel pc : Nat) (ps : PatchState) (e : String), patchLoop orig lp fuel pc ps = .error e → e = "too long to jump." := by
   intro fuel
   induction fuel with
@@ -373,7 +447,7 @@ theorem patchLoop_errors (orig : List Instr) (lp : List (Nat × Int)) (hlg : LG 
           | error e2 =>
             simp only [htj, Except.error.injEq] at hj
             subst hj
-            exact (threadJmp_range orig lp pc hlg 5 (.jmp L) 0 ⟨pc, hi⟩).2 _ htj
+            exact threadJmp_error orig lp pc 5 (.jmp L) 0 _ htj
           | ok d => simp [htj] at hj
         | _ => simp [patchJmp] at hj
       | ok code =>
